@@ -310,9 +310,33 @@ pub fn random_plan(r: &mut Rng, rl: u64, wl: u64, w: &Model, rm: &Model) -> Plan
             }
         }
         7 => {
-            // seek alone: bytes in [0, byte length of target]
+            // seek alone: bytes in [0, byte length of target]; half of the time at a place where
+            // the descent changes course: a block boundary (+-1), or the byte size of one of the
+            // roots of the target or of the replica's current tree taken as a position
             let bl: u64 = w.sizes[..target as usize].iter().sum();
-            p.seek = Some(r.range(0, bl));
+            p.seek = Some(if r.chance(1, 2) {
+                r.range(0, bl)
+            } else {
+                let mut cands: Vec<u64> = vec![];
+                let j = r.below(target + 1) as usize;
+                let pre: u64 = w.sizes[..j].iter().sum();
+                cands.extend([pre, pre.saturating_sub(1), (pre + 1).min(bl)]);
+                for l in [target, rl] {
+                    // root spans of a tree of l leaves: the binary decomposition of l
+                    let mut start = 0u64;
+                    let mut bit = 1u64 << 62;
+                    while bit > 0 {
+                        if l & bit != 0 {
+                            let size: u64 = w.sizes[start as usize..(start + bit) as usize].iter().sum();
+                            cands.extend([size, size.saturating_sub(1), size + 1]);
+                            start += bit;
+                        }
+                        bit >>= 1;
+                    }
+                }
+                let c = *r.pick(&cands);
+                c.min(bl)
+            });
         }
         8 => {
             // seek + block below upgrade.start (or no upgrade): bytes inside the block's subtree
